@@ -829,7 +829,7 @@ func TestC09(t *testing.T) {
 			exec(c, func(v *verdict, fc *Case) { run.Violation(v.sig, v.msg, fc) })
 		}
 	}
-	run.Rapid(t, "scripts", ev.Pick(100, 8000), func(rt *rapid.T) {
+	run.Rapid(t, "scripts", ev.Pick(200, 8000), func(rt *rapid.T) {
 		c := genCase(rt)
 		exec(c, func(v *verdict, fc *Case) {
 			if run.Open(v.sig) {
